@@ -481,9 +481,9 @@ def run(prop, tier, seed, rep, extra_inputs=None):
     import os
     json.dump(summary, open(os.path.join(core.BUILD, f"last_{prop}_verdicts.json"), "w"), indent=1, sort_keys=True)
     events = [e for e in events if e["ev"] == "decode"]
-    if prop in ("C02", "C03"):
-        # the other decode path: acceptance (C02) and checksum (C03) when the frame comes from a reader that returns short reads
-        reader_path_checksums(rng, tier, rep, hx)
+    # the other decode path: acceptance (C02), checksum (C03), every field (its owner) and totality (C01) when the frame comes
+    # from a reader that returns short reads, sits far into a stream, or is followed by another frame
+    reader_path_checksums(rng, tier, rep, hx)
     if tier == "thorough":
         selftest(prop, rep, events)
     distinct = len({bytes(e["bytes"]) for e in events})
